@@ -166,6 +166,48 @@ def roundtrip_case(seed, tid):
             "replay": replay[:len(gen_ticks)], "sig": sig, "seed": seed}
 
 
+def roundtrip_sim_case(seed, tid):
+    """`run` versus `gentrace` + `run -w`: the arrivals the simulator itself sees (tick and size of every pipeline), for durations and tick
+    rates whose product is not computed exactly in floating point."""
+    from . import simrec
+    from eudoxia.simulator import parse_args_with_defaults
+    from eudoxia.workload import WorkloadGenerator
+    from eudoxia.workload.csv_io import CSVWorkloadReader, CSVWorkloadWriter, WorkloadTraceGenerator
+    rng = random.Random(seed)
+    tps = rng.choice([3, 5, 7, 10, 25, 60, 75, 77, 91, 93, 99, 100, 128, rng.randint(2, 100)])
+    ticks = rng.randint(3, 200)
+    duration = rng.choice([ticks / tps, float(F(ticks, tps)), rng.choice([0.6, 1.2, 3, 2.4, 0.3, 7])])
+    base = {"duration": duration, "ticks_per_second": tps, "waiting_seconds_mean": float(F(rng.choice([1, 1, 2]), tps)), "num_pipelines": rng.choice([1, 2]),
+            "num_operators": 1, "random_seed": rng.randrange(10**6), "scheduler_algo": "naive", "num_pools": 1, "cpus_per_pool": 4, "ram_gb_per_pool": 64}
+
+    def arrivals(events):
+        return [[e["t"], len(e["wl"]["ops"]), e["wl"]["prio"]] for e in events if e["ev"] == "arrive"]
+    ev1, st1, ex1 = simrec.record_run(dict(base), tid=tid, mode="obs", U=1000, sparse=True)
+    full = parse_args_with_defaults(dict(base))
+    buf = io.StringIO()
+    w = CSVWorkloadWriter(buf)
+    written = []
+    for row in WorkloadTraceGenerator(workload=WorkloadGenerator(**full), ticks_per_second=tps, duration_secs=full["duration"]).generate_rows():
+        w.write_row(row)
+        if row.arrival_seconds is not None:
+            written.append(row.arrival_seconds)
+    buf.seek(0)
+    wl = CSVWorkloadReader(buf).get_workload(tps)
+    ev2, st2, ex2 = simrec.record_run(dict(base), tid=tid, workload=wl, mode="obs", U=1000, sparse=True)
+    a1, a2 = arrivals(ev1), arrivals(ev2)
+    sig = []
+    for i in range(len(a1)):
+        late = (a2[i][0] - a1[i][0]) if i < len(a2) else -99
+        fl = written[i] / (1.0 / tps) if i < len(written) else 0.0
+        wexpr = 1 if i < len(written) and written[i] == a1[i][0] * (1.0 / tps) else 0
+        # a pipeline the generator produced in the last tick and that replays one tick late (D8w) falls off the end of the run
+        if late == -99 and i < len(written) and wexpr and fl > a1[i][0] and a1[i][0] == int(full["duration"] * tps) - 1:
+            late = 1
+        sig.append([late, 1 if fl > a1[i][0] else 0, wexpr])
+    return {"kind": "roundtrip", "tid": tid, "tps": tps, "gen": [x[0] for x in a1], "replay": [x[0] for x in a2][:len(a1)] + [-1] * max(0, len(a1) - len(a2)),
+            "sig": sig, "seed": seed, "sim": True, "duration": repr(duration)}
+
+
 def _chunk(args):
     kind, seed, tid0, n = args
     common.import_repo()
@@ -174,6 +216,8 @@ def _chunk(args):
     for i in range(n):
         if kind == "replay":
             out.append([run_case(make_case(rng), tid0 + i)])
+        elif i % 2:
+            out.append([roundtrip_sim_case(rng.randrange(2**31), tid0 + i)])
         else:
             out.append([roundtrip_case(rng.randrange(2**31), tid0 + i)])
     return out
